@@ -8,7 +8,7 @@ RENAME=dict(p.split('=') for p in os.environ.get('RENAME','a=a,b=b').split(','))
 ROUND=os.environ.get('ROUND','1')
 confirm={}
 for l in open(CONFIRM):
-    m=re.match(r'(C\d+)/([ab]) demo_without_change_exit=(\d+) demo_with_change_exit=(\d+) suite=(\S+) patch=(\S+)', l)
+    m=re.match(r'(C\d+)/([a-z]) demo_without_change_exit=(\d+) demo_with_change_exit=(\d+) suite=(\S+) patch=(\S+)', l)
     if m: confirm[(m.group(1),m.group(2))]=dict(demo_without=int(m.group(3)), demo_with=int(m.group(4)), suite=m.group(5), patch=m.group(6))
 only=sys.argv[1:] 
 extra={('C02','a'):['C04'], ('C18','b'):['C09'], ('C08','a'):['C13'], ('C03','a'):['C05']} if ROUND=='1' else {('C18','b'):['C11']} if ROUND=='2' else {('C06','a'):['C04','C12']}
